@@ -267,7 +267,7 @@ def dist_factor(prog, rep, L, res_call, res_si) -> None:
     for q in ff.order:
         if isinstance(q.stmt, ast.Assert) and q.index < res_si.index:
             t = U(ff.resolved(q.stmt, q.stmt.test))
-            if f"{D} <= {P}" in t or f"{P} >= {D}" in t:
+            if f"{D} <= {P}" in t:
                 asserted = True
     rep.check(ok_shape and guard and asserted, "dist-factor-shape", sv.qualname, "dist_factor",
               f"dist_factor is path_length/direct_distance where the distance is non-zero and a literal >= 1 otherwise, after asserting path_length >= direct_distance "
